@@ -261,6 +261,13 @@ def _forms():
     reg('linear', 'scalar', {'L3': 'ElementLineP2', 'T2': 'ElementTriP2', 'K1': 'ElementTetP1'}, S,
         lambda np_, H, u, v, w: H.dot(u.grad, v.grad) + 2 * u * v * (1 + w.x[0]) - 1.0 * v,
         lambda np_, H, u0, du, v, w: H.dot(du.grad, v.grad) + 2 * du * v * (1 + w.x[0]), linear=True)
+    # default parameters of the basis (w.x, w.h; w.n on facet bases) inside a nonlinear integrand
+    reg('defaults', 'scalar', {'L3': 'ElementLineP2', 'T2': 'ElementTriP2', 'K1': 'ElementTetP1'}, S,
+        lambda np_, H, u, v, w: u * v * w.h + w.x[0] * u * u * v + H.dot(u.grad, v.grad) * (1 + w.x[0] * w.x[0]),
+        lambda np_, H, u0, du, v, w: du * v * w.h + 2 * w.x[0] * u0 * du * v + H.dot(du.grad, v.grad) * (1 + w.x[0] * w.x[0]))
+    reg('facet-normal', 'scalar-facet', {'T2': 'ElementTriP2', 'K1': 'ElementTetP1', 'L3': 'ElementLineP1'}, ['T2', 'T2:mirrored', 'K1', 'L3'],
+        lambda np_, H, u, v, w: u * u * v * w.n[0] + w.h * u * v + w.x[0] * v,
+        lambda np_, H, u0, du, v, w: 2 * u0 * du * v * w.n[0] + w.h * du * v)
     # vector-valued --------------------------------------------------------------------------------------------
     reg('vector', 'vector', {'T2': 'ElementVector(TriP1)', 'K1': 'ElementVector(TetP2)'}, ['T2', 'T2:mirrored', 'K1'],
         lambda np_, H, u, v, w: H.ddot(H.mul(u.grad, u.grad) if hasattr(H, '_mm') else _mm(np_, u.grad, u.grad), v.grad)
@@ -301,9 +308,14 @@ def form_work(fname, meshlabel, tier, seed, out):
     spec = _forms()[fname]
     m = get_mesh(meshlabel, seed)
     ename = spec['elem'][meshlabel.partition(':')[0]]
-    elem = cat.by_name(ename).make()
-    b = Basis(m, elem)
-    N = b.N
+    facet = spec['kind'] == 'scalar-facet'
+    from skfem import FacetBasis
+    mk = (lambda mm: FacetBasis(mm, cat.by_name(ename).make())) if facet else (lambda mm: Basis(mm, cat.by_name(ename).make()))
+    b0 = mk(m)
+    N = b0.N
+    # the same form object is afterwards used on a basis of the same class and sizes but other geometry, then on the first again
+    dimm = m.p.shape[0]
+    b2 = mk(m.scaled(tuple([2.0, 0.5, 1.5][:dimm])).translated(tuple([1.0, -2.0, 0.5][:dimm])))
     sig0 = f"C20|NonlinearForm|{fname}|"
     case0 = {'integrand': fname, 'mesh': meshlabel, 'element': ename}
 
@@ -323,61 +335,69 @@ def form_work(fname, meshlabel, tier, seed, out):
         pts.append((f'e_{k}', e))
     pts.append(('pattern1', (np.arange(N) % 3 - 1.0) * .5))
     pts.append(('pattern2', 1.0 + (np.arange(N) * 7 % 5) * .25))
-    J0 = None
+    def run_on(blab, b, pts):
+        J0 = None
 
-    def residual_vec(x):
-        ui = b.interpolate(x)
-        if comp:
-            return LinearForm(lambda v, q, w: res(np, HN, w['a'], w['c'], v, q, w)).assemble(b, a=ui[0], c=ui[1])
-        return LinearForm(lambda v, w: res(np, HN, w['a'], v, w)).assemble(b, a=ui)
-    for lab, x in pts:
-        out.ev()
-        try:
-            J, r = nl.assemble(b, x=x)
-        except Exception as e:
-            bad('exception', f"assemble raised {e!r} at {lab}", point=lab)
+        def residual_vec(x):
+            ui = b.interpolate(x)
+            if comp:
+                return LinearForm(lambda v, q, w: res(np, HN, w['a'], w['c'], v, q, w)).assemble(b, a=ui[0], c=ui[1])
+            return LinearForm(lambda v, w: res(np, HN, w['a'], v, w)).assemble(b, a=ui)
+        for lab, x in pts:
+            out.ev()
+            try:
+                J, r = nl.assemble(b, x=x)
+            except Exception as e:
+                bad('exception', f"assemble raised {e!r} at {lab} ({blab})", point=lab, basis=blab)
+                return False
+            Jd = J.toarray()
+            ui = b.interpolate(x)
+            # residual
+            want_r = -residual_vec(x)
+            if r.shape != want_r.shape or np.abs(r - want_r).max() > 1e-10 * (1 + np.abs(want_r).max()):
+                bad('residual', f"returned vector differs from minus the LinearForm of the integrand at {lab} (max diff "
+                    f"{np.abs(r - want_r).max():.3e}) [{blab}]", point=lab, basis=blab)
+                return False
+            # hand-linearised Jacobian
+            if comp:
+                Jh = BilinearForm(lambda du, dp, v, q, w: jac(np, HN, w['a'], w['c'], du, dp, v, q, w)).assemble(b, a=ui[0], c=ui[1])
+            else:
+                Jh = BilinearForm(lambda du, v, w: jac(np, HN, w['a'], du, v, w)).assemble(b, a=ui)
+            Jh = Jh.toarray()
+            sc = 1 + np.abs(Jh).max()
+            if Jd.shape != Jh.shape or np.abs(Jd - Jh).max() > 1e-10 * sc:
+                i, j = np.unravel_index(np.abs(Jd - Jh).argmax(), Jh.shape) if Jd.shape == Jh.shape else (0, 0)
+                tr = ' (equals its transpose)' if Jd.shape == Jh.shape and np.abs(Jd - Jh.T).max() <= 1e-10 * sc else ''
+                bad('jacobian-vs-hand-linearisation', f"Jacobian at {lab} differs from the hand-linearised bilinear form: J[{i},{j}] = "
+                    f"{Jd[i, j]!r} vs {Jh[i, j]!r}{tr} [{blab}]", point=lab, basis=blab)
+                return False
+            # central differences of the residual (independent of the hand linearisation)
+            eps = 1e-5
+            cols = range(N) if N <= 12 else sorted({0, N // 2, N - 1})
+            for k in cols:
+                e = np.zeros(N)
+                e[k] = eps
+                fd = (residual_vec(x + e) - residual_vec(x - e)) / (2 * eps)
+                if np.abs(fd - Jd[:, k]).max() > 2e-6 * sc:
+                    bad('jacobian-vs-finite-differences', f"column {k} of the Jacobian at {lab} differs from central differences of the "
+                        f"residual by {np.abs(fd - Jd[:, k]).max():.3e}", point=lab)
+                    return False
+            if J0 is None:
+                J0 = Jd
+            if spec['linear']:
+                if np.abs(Jd - J0).max() > 1e-12 * sc:
+                    bad('linear-jacobian-depends-on-point', f"Jacobian of a linear integrand changes with the point ({lab})")
+                out.nt((fname, meshlabel, lab, blab))
+            elif np.abs(Jd).max() > 0 and (lab == 'zero' or np.abs(Jd - J0).max() > 1e-9):
+                out.nt((fname, meshlabel, lab, blab))
+            out.outcome((fname, meshlabel, lab, blab))
+        return True
+
+    for blab, bb, pp in (('first', b0, pts), ('same-form-other-geometry', b2, pts[:1] + pts[-2:]),
+                         ('same-form-first-again', b0, pts[-1:])):
+        if not run_on(blab, bb, pp):
             return
-        Jd = J.toarray()
-        ui = b.interpolate(x)
-        # residual
-        want_r = -residual_vec(x)
-        if r.shape != want_r.shape or np.abs(r - want_r).max() > 1e-10 * (1 + np.abs(want_r).max()):
-            bad('residual', f"returned vector differs from minus the LinearForm of the integrand at {lab} (max diff "
-                f"{np.abs(r - want_r).max():.3e})", point=lab)
-            return
-        # hand-linearised Jacobian
-        if comp:
-            Jh = BilinearForm(lambda du, dp, v, q, w: jac(np, HN, w['a'], w['c'], du, dp, v, q, w)).assemble(b, a=ui[0], c=ui[1])
-        else:
-            Jh = BilinearForm(lambda du, v, w: jac(np, HN, w['a'], du, v, w)).assemble(b, a=ui)
-        Jh = Jh.toarray()
-        sc = 1 + np.abs(Jh).max()
-        if Jd.shape != Jh.shape or np.abs(Jd - Jh).max() > 1e-10 * sc:
-            i, j = np.unravel_index(np.abs(Jd - Jh).argmax(), Jh.shape) if Jd.shape == Jh.shape else (0, 0)
-            tr = ' (equals its transpose)' if Jd.shape == Jh.shape and np.abs(Jd - Jh.T).max() <= 1e-10 * sc else ''
-            bad('jacobian-vs-hand-linearisation', f"Jacobian at {lab} differs from the hand-linearised bilinear form: J[{i},{j}] = "
-                f"{Jd[i, j]!r} vs {Jh[i, j]!r}{tr}", point=lab)
-            return
-        # central differences of the residual (independent of the hand linearisation)
-        eps = 1e-5
-        cols = range(N) if N <= 12 else sorted({0, N // 2, N - 1})
-        for k in cols:
-            e = np.zeros(N)
-            e[k] = eps
-            fd = (residual_vec(x + e) - residual_vec(x - e)) / (2 * eps)
-            if np.abs(fd - Jd[:, k]).max() > 2e-6 * sc:
-                bad('jacobian-vs-finite-differences', f"column {k} of the Jacobian at {lab} differs from central differences of the "
-                    f"residual by {np.abs(fd - Jd[:, k]).max():.3e}", point=lab)
-                return
-        if J0 is None:
-            J0 = Jd
-        if spec['linear']:
-            if np.abs(Jd - J0).max() > 1e-12 * sc:
-                bad('linear-jacobian-depends-on-point', f"Jacobian of a linear integrand changes with the point ({lab})")
-            out.nt((fname, meshlabel, lab))
-        elif np.abs(Jd).max() > 0 and (lab == 'zero' or np.abs(Jd - J0).max() > 1e-9):
-            out.nt((fname, meshlabel, lab))
-        out.outcome((fname, meshlabel, lab))
+    b = b0
     if spec['linear']:
         # reduces to ordinary assembly: J == A, r == b - A x
         A = BilinearForm(lambda du, v, w: jac(np, HN, None, du, v, w)).assemble(b).toarray()
